@@ -11,6 +11,7 @@ import (
 	"bytes"
 	"context"
 	"fmt"
+	"io"
 	"net"
 	"net/http"
 	"os"
@@ -35,6 +36,14 @@ func vc01Specs() []vfxSpec {
 	c := vfxDefaultSpec("c01c", 1, seed+2)
 	c.NumSlots, c.SkipPercent, c.MaxEntries, c.MaxTx, c.FirstRel = 30, 50, 1, 1, vfxEpochLen-30
 	specs := []vfxSpec{a, b, c}
+	// one large epoch: tens of thousands of transactions in few blocks, so that the cid-to-offset-and-size and the
+	// sig-to-cid index both have several buckets near the 10 000-entries target (real 24-bit hash collisions occur
+	// while their buckets are mined) and are sealed at the same time by createAllIndexes
+	if n := vc01BigSlots(); n > 0 {
+		big := vfxDefaultSpec(vc01BigName, 11, seed+5)
+		big.NumSlots, big.SkipPercent, big.MaxEntries, big.MaxTx = n, 0, 8, 50
+		specs = append(specs, big)
+	}
 	if vh.Thorough() {
 		d := vfxDefaultSpec("c01d", 5, seed+3) // > 10 000 transactions and objects: more than one bucket per index
 		d.NumSlots, d.SkipPercent, d.MaxEntries, d.MaxTx = 4200, 5, 2, 4
@@ -45,9 +54,25 @@ func vc01Specs() []vfxSpec {
 	return specs
 }
 
+const vc01BigName = "c01big"
+const vc01BigStride = 41
+
+// vc01BigSlots: number of blocks of the large epoch (about 112 transactions per block); VERIF_C01_BIG_SLOTS overrides
+// it (0 = no large epoch).
+func vc01BigSlots() int {
+	n := 400
+	if vh.Thorough() {
+		n = 800
+	}
+	if v := os.Getenv("VERIF_C01_BIG_SLOTS"); v != "" {
+		fmt.Sscan(v, &n)
+	}
+	return n
+}
+
 func TestVerif_C01(t *testing.T) {
 	rep := vh.NewReport("C01", "indexall",
-		"generated epochs (layout knobs: skipped slots, entries/txs per block, 1/2/3-byte section varints, multi-frame payloads, header length, rewards, epoch number); every object/slot/signature read back through index readers and a loaded Epoch (local file and HTTP ReaderAt); a case = one lookup; non-trivial = lookups of distinct keys")
+		"generated epochs (layout knobs: skipped slots, entries/txs per block, 1/2/3-byte section varints, multi-frame payloads, header length, rewards, epoch number; one large epoch of several hundred blocks with up to 400 transactions each, i.e. tens of thousands of objects and signatures and several index buckets near the 10 000-entries target); every object/slot/signature read back through index readers and a loaded Epoch (local file and HTTP ReaderAt); a case = one lookup; non-trivial = lookups of distinct keys")
 	cases := vh.NewCases("cases_c01", []string{"YF.C01_IndexAll", "YF.C01_Check"}, "case", "check")
 	specs := vc01Specs()
 	truths, err := vfxBuild(specs)
@@ -174,7 +199,10 @@ func vc01OneEpoch(t *testing.T, rep *vh.Report, cases *vh.CasesFile, tr *vfxTrut
 		}
 	}
 	// ---- (b) loaded Epoch: local file, then HTTP ReaderAt
-	modes := []string{"file"}
+	// "readerat-eof": the CAR served from memory through an io.ReaderAt that reports io.EOF together with the
+	// complete read when a read ends exactly at the end of the data (legal for io.ReaderAt): the last object too
+	// must be fetched
+	modes := []string{"file", "readerat-eof"}
 	if ln != nil {
 		modes = append(modes, "readerat")
 	}
@@ -195,12 +223,25 @@ func vc01OneEpoch(t *testing.T, rep *vh.Report, cases *vh.CasesFile, tr *vfxTrut
 			rep.Fail("epoch-load-failed:"+mode, fmt.Sprintf("%s: %v", name, err), replay)
 			continue
 		}
+		if mode == "readerat-eof" {
+			ep.localCarReader = nil // stays registered in onClose
+			ep.remoteCarReader = &vc01EOFReader{b: car}
+		}
 		rep.Count("epoch-loaded:" + mode)
 		if ep.carHeaderSize != tr.HeaderLen {
 			rep.Fail("wrong-header-size:"+mode, fmt.Sprintf("%s: server believes data starts at %d, header is %d bytes", name, ep.carHeaderSize, tr.HeaderLen), replay)
 		}
 		ctx := context.Background()
+		// the large epoch: every key through the index readers above and through the Epoch over the local file; over
+		// HTTP (one range request per object) and for the second fetch every stride-th key only
+		stride := 1
+		if name == vc01BigName && (mode == "readerat") {
+			stride = vc01BigStride
+		}
 		for i, o := range tr.Objects {
+			if i%stride != 0 {
+				continue
+			}
 			rep.Case(name+"/"+mode+"/cid/"+o.Cid, false)
 			want := car[o.Offset+o.SecLen-vc01DataLen(car, o) : o.Offset+o.SecLen]
 			got, err := ep.GetNodeByCid(ctx, vfxCidFromHex(o.Cid))
@@ -210,7 +251,10 @@ func vc01OneEpoch(t *testing.T, rep *vh.Report, cases *vh.CasesFile, tr *vfxTrut
 				rep.Fail("object-bytes-differ:"+mode, fmt.Sprintf("%s object #%d: got %d bytes, want %d", name, i, len(got), len(want)), replay)
 			}
 		}
-		for _, b := range tr.Blocks {
+		for bi, b := range tr.Blocks {
+			if bi%stride != 0 {
+				continue
+			}
 			c, err := ep.FindCidFromSlot(ctx, b.Slot)
 			if err != nil || !c.Equals(vfxCidFromHex(b.Cid)) {
 				rep.Fail("slot-does-not-resolve:"+mode, fmt.Sprintf("%s slot %d: %v", name, b.Slot, err), replay)
@@ -233,7 +277,13 @@ func vc01OneEpoch(t *testing.T, rep *vh.Report, cases *vh.CasesFile, tr *vfxTrut
 		}
 		// every object a second time through the same Epoch: the caches in front of the index and the CAR (offset
 		// and size, raw object) must not change what a fetch returns
+		if name == vc01BigName {
+			stride = vc01BigStride
+		}
 		for i, o := range tr.Objects {
+			if i%stride != 0 {
+				continue
+			}
 			want := car[o.Offset+o.SecLen-vc01DataLen(car, o) : o.Offset+o.SecLen]
 			got, err := ep.GetNodeByCid(ctx, vfxCidFromHex(o.Cid))
 			if err != nil {
@@ -250,6 +300,22 @@ func vc01OneEpoch(t *testing.T, rep *vh.Report, cases *vh.CasesFile, tr *vfxTrut
 			"first_objects": tr.Objects[:3], "spec": tr.Spec})
 	}
 }
+
+// vc01EOFReader: a conforming io.ReaderAt over a byte slice that returns io.EOF TOGETHER with a complete read whenever
+// the read ends exactly at the end of the data.
+type vc01EOFReader struct{ b []byte }
+
+func (r *vc01EOFReader) ReadAt(p []byte, off int64) (int, error) {
+	if off < 0 || off > int64(len(r.b)) {
+		return 0, io.EOF
+	}
+	n := copy(p, r.b[off:])
+	if n < len(p) || int(off)+n == len(r.b) {
+		return n, io.EOF
+	}
+	return n, nil
+}
+func (r *vc01EOFReader) Close() error { return nil }
 
 // vc01DataLen: payload length of an object = section - varint prefix - cid, computed from the CAR bytes themselves.
 func vc01DataLen(car []byte, o vfxObj) uint64 {
